@@ -5,6 +5,8 @@
 //!     <id> alpha=dna caps=.. pat=.. file=<path>                      (bundled data, corpus only)
 //! `transfac c15 gen ...` prints
 //!     <id> alpha=dna|protein caps=<c,c,..> pat=<n.n.n> data=<hex>
+//! Every line of this group carries the token `fmt=transfac`; `run` echoes any other line (corpus
+//! lines of the io group) followed by ` => skip`.
 //! `transfac c14|c15 run` reads input lines on stdin and prints them followed by
 //!     ` => data=<hex> obs=<seq>;<seq>;...`     (c14; `data=` is the file that was read)
 //!     ` => obs=<seq>;<seq>;...`                 (c15)
@@ -740,7 +742,7 @@ fn gen_c14(rng: &mut Rng, id: usize, tier: &str) -> String {
     };
     let f = gen_file(rng, nrec, maxw);
     let recs: Vec<String> = f.recs.iter().map(enc_rec).collect();
-    format!("g{} {} caps=1,2,3,5,17,64,8192,1048576 pat={} recs={}", id, f.tokens(), gen_pattern(rng), recs.join(";"))
+    format!("g{} fmt=transfac {} caps=1,2,3,5,17,64,8192,1048576 pat={} recs={}", id, f.tokens(), gen_pattern(rng), recs.join(";"))
 }
 
 fn mutate(rng: &mut Rng, base: &[u8]) -> Vec<u8> {
@@ -892,7 +894,7 @@ fn gen_c15(rng: &mut Rng, id: usize, _tier: &str) -> String {
         2 => "3,1048576",
         _ => "5,17",
     };
-    format!("g{} alpha={} caps={} pat={} data={}", id, alpha, caps, gen_pattern(rng), hex(&data))
+    format!("g{} fmt=transfac alpha={} caps={} pat={} data={}", id, alpha, caps, gen_pattern(rng), hex(&data))
 }
 
 // ---------------------------------------------------------------- main
@@ -917,6 +919,11 @@ fn main() {
         }
         ("c14", "run") | ("c15", "run") => {
             for line in stdin_lines() {
+                // corpus lines of the other C14/C15 group (JASPAR, JASPAR16, UniPROBE) are not ours
+                if !line.split(' ').any(|t| t == "fmt=transfac") {
+                    println!("{} => skip", line);
+                    continue;
+                }
                 let (_id, f) = fields(&line);
                 let alpha = f.get("alpha").cloned().unwrap_or_else(|| "dna".to_string());
                 let chs = chunkings(&f);
